@@ -123,13 +123,22 @@ def applyUpdates (pf : Option Nat) (z : H) (cfg : Cfg) (c : Coll T) (h : Heap H)
     let c0 := { c with updates := UMap.empty cfg.map }
     backingUpdate pf z cfg c0 u h
 
-/-- The contiguity check of the `fix:` for F3 in `List::bulk_update`: keys at or beyond the
-backing length must extend it without gaps. Returns the first offending `(index, next)`. -/
+/-- The contiguity check of `List::bulk_update` (`fix:` commits for F3 and F8): keys at or
+beyond the backing length must extend it without gaps. Returns the first offending
+`(index, next)`. -/
 def gapCheck : Nat → List (Nat × T) → Option (Nat × Nat)
   | _, [] => none
   | next, (k, _) :: rest => if k = next then gapCheck (next+1) rest else some (k, next)
 
-/-- `List::bulk_update` (`list.rs:180-182` + `interface.rs:137-143`, with the `fix:` for F3). -/
+/-- the same walk with the additional bound of the `fix:` for F8: a visited key must not exceed
+`max_index()` (a `MaxMap` filled through `get_mut_with` under-reports its largest key). -/
+def gapCheckMax (mx : Nat) : Nat → List (Nat × T) → Option (Nat × Nat)
+  | _, [] => none
+  | next, (k, _) :: rest =>
+    if k = next ∧ k ≤ mx then gapCheckMax mx (next+1) rest else some (k, next)
+
+/-- `List::bulk_update` (`list.rs` + `interface.rs:137-143`, with the `fix:` commits for F3 and
+F8): every key at or beyond the backing length is visited (`for_each_range(len, usize::MAX)`). -/
 def bulkUpdate (cfg : Cfg) (c : Coll T) (u : UMap T) : Except Err (Coll T) :=
   if c.hasPending then .error .bulkUpdateUnclean
   else
@@ -138,7 +147,7 @@ def bulkUpdate (cfg : Cfg) (c : Coll T) (u : UMap T) : Except Err (Coll T) :=
     | some mx =>
       if mx ≥ cfg.N then .error .invalidListUpdate
       else
-        match gapCheck c.length (u.range c.length (mx + 1)) with
+        match gapCheckMax mx c.length (u.range c.length (2 ^ 64 - 1)) with
         | some (index, next) => .error (.outOfBoundsUpdate index next)
         | none => .ok { c with updates := u }
 
